@@ -106,6 +106,25 @@ def ops : List (String × Op) := [
         let o ← pList pKindIdx
         pure ({ len := n, empty := e, bounds := b, order := o } : AcollAns))
       pure (verdict (okAcoll genes fcs (bs, be) a))),
+  -- `aciter <genes> <feature collections> <variant collections>`: the members the collection iterates and names
+  -- (`iter_children`, `children_guids`, `guid_map`): ALL members - variant collections included, also when there is no
+  -- gene and no feature collection - ordered by start, members of equal start in the order genes, feature collections,
+  -- variant collections.  Variant collection i is reported as `f <1000 + i>`.
+  ("aciter", do
+      let genes ← pMembers true; let fcs ← pMembers false; let vcs0 ← pMembers false; pArrow
+      let vcs := vcs0.map (fun m => { m with idx := m.idx + 1000 })
+      let chain := genes ++ fcs ++ vcs
+      let a ← pAns (do
+        let o ← pList pKindIdx
+        let ng ← pNat; let nm ← pNat
+        pure (o, ng, nm))
+      pure (verdict (match a with
+        | none => false
+        | some (o, ng, nm) =>
+          ng == chain.length && nm == chain.length &&
+          (match recoverOrder chain o with
+           | some out => isStableSortByStart chain out
+           | none => false)))),
   -- the same with a chromosome parent: `<ps> <pe>` = its location ("- -": a parent without location)
   ("acollp", do
       let ps ← pOptNat; let pe ← pOptNat
